@@ -47,7 +47,7 @@ def make_stubs(world):
 
 
     # ------------------------------------------------------------------ % formatting
-    from specs.strings import fmt, fmt_ok, wfp, is_literal, litval, lit_exc
+    from specs.strings import fmt, fmt_ok, wfp, is_literal, litval, lit_exc, fmt_rend
 
     def _w_mod():
         try:
@@ -99,7 +99,9 @@ def make_stubs(world):
 
     @S.fn('str.__mod__', doc="s % arg: a constant format string with %s / %(key)s / %% conversions is expanded "
           "exactly (str() of each argument); a symbolic format string applied to a mapping returns fmt(s, m) when "
-          "every referenced key is present and raises KeyError otherwise (well-formed placeholders assumed via wfp)",
+          "every referenced key is present and every referenced value can be written (fmt_renders; str() refuses an integer beyond the "
+          "interpreter's digit limit with ValueError), raises KeyError for a missing key and ValueError for an unwritable value "
+          "(well-formed placeholders assumed via wfp)",
           witness=_w_mod)
     def str_mod(eng, st, pos, kw):
         f, arg = pos
@@ -172,7 +174,11 @@ def make_stubs(world):
         if w is not None:
             g, bad = eng.split(w, fmt_ok(V.s(f), m))
             if g is not None:
-                out.append((g, 'ok', V.str(fmt(V.s(f), m))))
+                g2, unw = eng.split(g, fmt_rend(V.s(f), m))
+                if g2 is not None:
+                    out.append((g2, 'ok', V.str(fmt(V.s(f), m))))
+                if unw is not None:
+                    out.append((unw, 'exc', ExcVal('ValueError')))
             if bad is not None:
                 out.append((bad, 'exc', ExcVal('KeyError')))
         if nw is not None:
@@ -287,6 +293,11 @@ def make_stubs(world):
             if c is None:
                 raise Unsupported('deepcopy of an object')
             out.extend(eng.apply_contract(x, c, [a], {}))
+        if rest is not None:
+            # immutable scalars are copied to themselves
+            x, rest = eng.split(rest, z3.Or(a == NONE, V.is_bool(a), V.is_int(a), V.is_float(a), V.is_str(a)))
+            if x is not None:
+                out.append((x, 'ok', a))
         if rest is not None:
             out.append((rest, 'ok', dcopy(a)))
         return out
